@@ -218,6 +218,31 @@ def edit(src, qual, how):
                 if isinstance(y, ast.JoinedStr) and y.lineno != y.end_lineno:
                     return None
         lines[r0:r1] = [ind + 'else:'] + [('    ' + l if l.strip() else l) for l in seg]
+    elif how == 'comprename':
+        # the variables of the first single-line comprehension or lambda of the function get other names
+        allnames = {x.id for x in ast.walk(node) if isinstance(x, ast.Name)} | {a.arg for x in ast.walk(node) if isinstance(x, ast.arguments)
+                                                                                  for a in x.posonlyargs + x.args + x.kwonlyargs}
+        cand = None
+        for x in ast.walk(node):
+            if isinstance(x, (ast.ListComp, ast.SetComp, ast.DictComp, ast.GeneratorExp, ast.Lambda)) and x.lineno == x.end_lineno:
+                if isinstance(x, ast.Lambda):
+                    tg = [a.arg for a in x.args.posonlyargs + x.args.args + x.args.kwonlyargs]
+                    if x.args.vararg or x.args.kwarg or x.args.defaults or x.args.kw_defaults:
+                        continue
+                else:
+                    tg = [y.id for g in x.generators for y in ast.walk(g.target) if isinstance(y, ast.Name)]
+                inner_binders = [y for y in ast.walk(x) if y is not x and isinstance(y, (ast.ListComp, ast.SetComp, ast.DictComp, ast.GeneratorExp, ast.Lambda))]
+                if tg and not inner_binders and not any((t + '_') in allnames for t in tg):
+                    cand = (x, set(tg))
+                    break
+        if cand is None:
+            return None
+        x, tg = cand
+        spots = [(y.lineno, y.col_offset, y.end_col_offset) for y in ast.walk(x) if isinstance(y, ast.Name) and y.id in tg]
+        spots += [(y.lineno, y.col_offset, y.col_offset + len(y.arg.encode())) for y in ast.walk(x) if isinstance(y, ast.arg) and y.arg in tg]
+        for ln, c0, c1 in sorted(set(spots), reverse=True):
+            line = lines[ln - 1].encode('utf-8')
+            lines[ln - 1] = (line[:c1] + b'_' + line[c1:]).decode('utf-8')
     elif how == 'tmpret':
         # `return EXPR` -> `_res = EXPR; return _res` for the LAST return of the function (single-line, own line)
         rets = [x for x in ast.walk(node) if isinstance(x, ast.Return) and x.value is not None and x.lineno == x.end_lineno
